@@ -12,6 +12,8 @@
        mds=<smallest_kv k of it, value@index;..> mdl=<largest_kv k of it>
        c3d=<contribs3d by index (model of HypervolumeContribution3D::allContributions) | -> c3s=<smallest_kv k of it> c3l=<largest_kv k>
      N k=<k> c2d=<contrib2d_noref value@index list | ->       (spec with implied reference: see c13.py)
+       ns=<noref_front (smallest) model: value@index;..> nl=<noref_front (largest)> iref=<implicit reference point>
+       nall=<contribs_spec w.r.t. the implicit reference point, by index>
      S k=<k> best=<best_subset_hv> front=<front_size> sel=<hssp2d model: 0/1 per point | EXC | -> hvsel=<hv_spec of the
        points the model selects | ->            (sel only for n <= 16: libstdc++ insertion sort)  | S SKIP *)
 open C13_model
@@ -83,7 +85,9 @@ let () =
                  let l = contribs3d !refp s in
                  (by_index l, kvs (smallest_kv (nat_of_int keff) l), kvs (largest_kv (nat_of_int keff) l)) end
                else ("-", "-", "-") in
-             Printf.printf "K k=%d d=%d spec=%s c2d=%s c3d=%s c3s=%s c3l=%s small=%s large=%s md=%s mds=%s mdl=%s\n" keff !d (join sz c) c2 c3 c3s c3l
+             Printf.printf "K k=%d d=%d fes=%s fel=%s spec=%s c2d=%s c3d=%s c3s=%s c3l=%s small=%s large=%s md=%s mds=%s mdl=%s\n" keff !d
+               (kvs (contrib_front_smallest hv_spec !refp s (nat_of_int keff))) (kvs (contrib_front_largest hv_spec !refp s (nat_of_int keff)))
+               (join sz c) c2 c3 c3s c3l
                (join sz (smallest_k (nat_of_int keff) c)) (join sz (largest_k (nat_of_int keff) c))
                (join (fun (v, _) -> sz v) md) (kvs (smallest_kv (nat_of_int keff) md)) (kvs (largest_kv (nat_of_int keff) md))
            end
@@ -96,7 +100,11 @@ let () =
                    (String.concat "," (List.map (fun (v, i) -> sz v ^ "@" ^ snat i) l))
                    (join sz (smallest_k (nat_of_int keff) vals)) (join sz (largest_k (nat_of_int keff) vals))
                end else "-" in
-             Printf.printf "N k=%d %s\n" keff c2
+             let kvs l = if l = [] then "none" else String.concat ";" (List.map (fun (v, i) -> sz v ^ "@" ^ snat i) l) in
+             let ir = implicit_ref s in
+             Printf.printf "N k=%d %s ns=%s nl=%s iref=%s nall=%s\n" keff c2
+               (kvs (noref_front hv_spec false s (nat_of_int keff))) (kvs (noref_front hv_spec true s (nat_of_int keff)))
+               (join sz ir) (join sz (contribs_spec ir s))
            end
          | "S" ->
            let m = int_of_nat (front_size s) in
